@@ -95,7 +95,7 @@ def gen_cases(tier, seed):
             classes.add("toplevel-link")
             topdst = r.choice(["absent", "existing-dir", "existing-dir"])
         yield {"topdst": topdst, "top": top, "spec": spec, "driver": driver, "classes": sorted(classes), "bad": bad, "maxchain": maxchain, "fs": "ext4",
-               "args": ["--driver", driver, "-w", str(r.choice([1, 2, 4]))] + r.choice([[], [], ["--fsync"], ["--no-perms"], ["--gitignore"], ["--reflink", "never"], ["--no-progress"], ["--block-size", "4096"]])
+               "args": ["--driver", driver, "-w", str(r.choice([1, 2, 4]))] + r.choice([[], [], ["--fsync"], ["--no-perms"], ["--gitignore"], ["--reflink", "never"], ["--no-progress"], ["--block-size", "4096"], ["-n"], ["--backup", "numbered"], ["--ownership"], ["-v"]])
                        + ["-r", "-L", "src", "dst"]}
 
 
